@@ -125,6 +125,18 @@ Theorem c09_mem_ds_equivalent : forall cached look ops, 0 <= look -> ds_ok 0 ops
 Proof. exact mem_ds_equivalent_l. Qed.
 Print Assumptions c09_mem_ds_equivalent.
 
+(* state: after every such history a GC run (either mode, any cache) leaves only unexpired entries in the
+   datastore — exactly as many entries and signed records as the abstract book holds (memory bounded) —
+   and the peers still listed are exactly the abstract book's peers *)
+Theorem c09_ds_bounded_after_gc : forall cached look ops, 0 <= look -> ds_ok 0 ops = true ->
+  let s := d_run (d_init cached look) ops in
+  let a := a_run a_init ops in
+  (forall r e, In r (d_store (d_gc s)) -> In e (daddrs r) -> unix (d_now s) < dexp e) /\
+  d_stored (d_gc s) = zlen' (a_ents a) /\ d_nrecs (d_gc s) = zlen' (a_recs a) /\
+  (forall q, In q (d_peers (d_gc s)) <-> In q (a_peers a)).
+Proof. exact ds_bounded_l. Qed.
+Print Assumptions c09_ds_bounded_after_gc.
+
 Theorem c09_ds_ok_implies_clock_ok : forall now ops, ds_ok now ops = true -> clock_ok now ops = true.
 Proof. exact ds_ok_clock. Qed.
 Print Assumptions c09_ds_ok_implies_clock_ok.
